@@ -1,6 +1,8 @@
 import Verif.Lemmas.C10
 import Verif.Lemmas.C15Generic
 import Verif.Props.C04
+import Verif.Lemmas.C18Race
+import Verif.Gen.GoWrites
 /-! # C18 — Same query, same logs, same answer
 
 The model of evaluation (`LogQL.specEntries`/`group`, `Metric.eval`/`readSteps`, `Render.render`) is a
@@ -11,10 +13,16 @@ the map from which a sample's label set is materialised, the iteration order of 
 series/streams (the result is a *set* of series/streams: the correspondence compares canonically), and
 the arrival order of streams at the renderer.  One theorem per site.
 
-**Partial**: data-race freedom is a statement about the Go memory model; the model only shows that the
-concurrent writes target distinct slots and are joined before use (`C18_completion_order_irrelevant`);
-the C18 check enumerates completion orders and repeats evaluations end to end (fake Docker client →
-querier → engine → renderer).  `topk`/`bottomk` at a tie is the recorded finding K2. -/
+**Partial**: data-race freedom is a statement about the Go memory model.  What is proved: the
+discipline "a concurrently running body assigns, of everything declared outside it, only the array
+element indexed by its own per-iteration loop variable" is READ OFF THE SOURCE on every run
+(`Gen.goWrites`, go/ast over internal/dockerlog) and checked by `C18_goroutine_writes_own_slot`; under
+that discipline no two accesses of different bodies conflict (`C18_no_conflicting_accesses`) and the
+array handed to the merge does not depend on the interleaving (`C18_slot_writes_commute`,
+`C18_completion_order_irrelevant`).  What is not: that the extractor sees every write (calls through
+`q.client`, the iterators' internals) and the happens-before edges of `errgroup.Wait`; the C18 check
+therefore also runs the section under Go's race detector (harness `race`), enumerates completion
+orders and repeats evaluations end to end (fake Docker client → querier → engine → renderer). -/
 namespace C18
 open LogQL Metric
 
@@ -55,5 +63,22 @@ theorem C18_streams_are_a_set (es : List Entry) :
 theorem C18_series_are_a_set (steps : List Step) :
     (readSteps false steps).Pairwise (fun a b => sameLabels a.labels b.labels = false) :=
   Metric.C10.readSteps_no_duplicate_series steps
+
+/-- **C18 (race clause, regenerated fact)**: in the source as it is now there is exactly one concurrently
+running body in internal/dockerlog, loop variables are per iteration, and every assignment in that body to
+something declared outside it is to the element indexed by its own loop variable -/
+theorem C18_goroutine_writes_own_slot :
+    Gen.goBodies = 1 ∧ Gen.loopVarPerIteration = true ∧ ∀ w ∈ Gen.goWrites, w.2.2 = Gen.WKind.slot := by
+  decide
+
+/-- **C18 (race clause, model)**: under that discipline no two accesses of different bodies conflict -/
+theorem C18_no_conflicting_accesses (accs : List C18Race.Access) (h : ∀ a ∈ accs, C18Race.Disciplined a) :
+    ∀ a ∈ accs, ∀ b ∈ accs, ¬ C18Race.conflict a b := C18Race.no_conflict accs h
+
+/-- …and the filled array is the same for every order in which the bodies' writes are performed -/
+theorem C18_slot_writes_commute {α} (ws1 ws2 : List (Nat × α)) (hp : ws1.Perm ws2)
+    (hd : ws1.Pairwise (fun a b => a.1 ≠ b.1)) (arr : Nat → Option α) :
+    ws1.foldl C18Race.store arr = ws2.foldl C18Race.store arr := C18Race.foldl_store_perm ws1 ws2 hp hd arr
+
 
 end C18
